@@ -30,7 +30,7 @@ pub trait LayoutSpec {
     spec fn oods_poly_spec(pi: &PublicInput, column_values: Seq<nat>, oods_values: Seq<nat>, coeffs: Seq<nat>, point: nat, oods_point: nat, trace_generator: nat) -> nat;
 }
 
-//@repo crates/air/src/layout/mod.rs trait LayoutTrait props=C01
+//@repo crates/air/src/layout/mod.rs trait LayoutTrait props=C01,C02
 pub trait LayoutTrait/*+*/: LayoutSpec/*-*/ {
     type InteractionElements;
     const CONSTRAINT_DEGREE: usize;
@@ -59,7 +59,7 @@ pub trait LayoutTrait/*+*/: LayoutSpec/*-*/ {
         trace_generator: &Felt,
     ) -> (r: Result<Felt, CompositionPolyEvalError>)
         requires
-            mask_values@.len() == Self::MASK_SIZE,                    // [C01,C18:composition-evaluated-on-exactly-MASK_SIZE-values]
+            mask_values@.len() == Self::MASK_SIZE,                    // [C01,C02,C18:composition-evaluated-on-exactly-MASK_SIZE-values]
             constraint_coefficients@.len() == Self::N_CONSTRAINTS,    // [C16,C18:one-coefficient-per-constraint]
             Self::composition_pre(public_input, trace_domain_size@),  // [C18:composition-evaluated-after-public-input-validation]
         ensures
@@ -76,8 +76,8 @@ pub trait LayoutTrait/*+*/: LayoutSpec/*-*/ {
     ) -> (r: Result<Felt, OodsPolyEvalError>)
         requires
             Self::params_known(public_input),
-            column_values@.len() == Self::n_cols(public_input).0 + Self::n_cols(public_input).1 + Self::CONSTRAINT_DEGREE, // [C01,C18:deep-row-has-all-trace-and-composition-cells]
-            oods_values@.len() == Self::MASK_SIZE + Self::CONSTRAINT_DEGREE,             // [C01,C18:deep-reads-the-same-oods-vector-positions-0..MASK+DEGREE]
+            column_values@.len() == Self::n_cols(public_input).0 + Self::n_cols(public_input).1 + Self::CONSTRAINT_DEGREE, // [C01,C02,C18:deep-row-has-all-trace-and-composition-cells]
+            oods_values@.len() == Self::MASK_SIZE + Self::CONSTRAINT_DEGREE,             // [C01,C02,C18:deep-reads-the-same-oods-vector-positions-0..MASK+DEGREE]
             constraint_coefficients@.len() == Self::MASK_SIZE + Self::CONSTRAINT_DEGREE, // [C16,C18:one-coefficient-per-opening]
         ensures
             r.is_ok(),
@@ -97,10 +97,10 @@ pub trait LayoutTrait/*+*/: LayoutSpec/*-*/ {
     ) -> (r: crate::swiftness_air::trace::Commitment<Self::InteractionElements>)
         ensures
             r.original.config == config.original && r.original.vector_commitment.config == config.original.vector
-                && r.original.vector_commitment.commitment_hash == unsent_commitment.original,      // [C08:original-trace-root-committed]
+                && r.original.vector_commitment.commitment_hash == unsent_commitment.original,      // [C01,C02,C08:original-trace-root-committed]
             r.interaction.config == config.interaction && r.interaction.vector_commitment.config == config.interaction.vector
-                && r.interaction.vector_commitment.commitment_hash == unsent_commitment.interaction, // [C08:interaction-trace-root-committed]
-            Self::ie_ok(&r.interaction_elements, ts_absorb1(old(transcript).digest@, unsent_commitment.original@)), // [C08:interaction-elements-squeezed-after-original-root]
+                && r.interaction.vector_commitment.commitment_hash == unsent_commitment.interaction, // [C01,C02,C08:interaction-trace-root-committed]
+            Self::ie_ok(&r.interaction_elements, ts_absorb1(old(transcript).digest@, unsent_commitment.original@)), // [C01,C02,C08:interaction-elements-squeezed-after-original-root]
             final(transcript).digest@ == ts_absorb1(ts_absorb1(old(transcript).digest@, unsent_commitment.original@), unsent_commitment.interaction@), // [C08:both-trace-roots-absorbed-in-order]
             final(transcript).counter@ == 0,
     ;
@@ -127,7 +127,7 @@ pub trait StaticLayoutTrait {
 }
 //@end
 
-//@repo crates/air/src/layout/mod.rs trait GenericLayoutTrait props=C01
+//@repo crates/air/src/layout/mod.rs trait GenericLayoutTrait props=C01,C02
 pub trait GenericLayoutTrait/*+*/: LayoutSpec/*-*/ {
     fn get_num_columns_first(public_input: &PublicInput) -> (r: Option<usize>)
         ensures r is Some <==> Self::params_known(public_input), r is Some ==> r->Some_0 == Self::n_cols(public_input).0,
